@@ -21,9 +21,13 @@ Print Assumptions c05_wheel_placement.
 
 (* The wheel invariant (every node correctly placed for the current position, ids
    distinct, periodic nodes strictly in the future) holds after EVERY history of API calls
-   and worker steps, from every start position. *)
+   and worker steps, from every start position.  [short ops]: the history has fewer than
+   2^63 - 1 operations, i.e. it does not exhaust the scheduler's 63-bit id counter (the id
+   allocation itself is modelled with the wrap, see c06_ids_unique_wrap; after a wrap an
+   id can be handed out again while a cancelled node that carried it is still linked,
+   which the id-based node identity of this model does not distinguish). *)
 Theorem c05_wheel_inv : forall ops cur0 tt0,
-  0 <= cur0 -> core_winv (score (fst (run (init_wheel cur0 tt0) ops))).
+  0 <= cur0 -> short ops -> core_winv (score (fst (run (init_wheel cur0 tt0) ops))).
 Proof. exact wheel_inv_all. Qed.
 Print Assumptions c05_wheel_inv.
 
@@ -40,12 +44,13 @@ Print Assumptions c05_wheel_tick_inv.
    earlier, never postponed; periodic timers re-armed one period after the delivering
    tick; a delivered one-shot timer not counted or reported any more. *)
 Theorem c05_wheel_refines_spec : forall ops cur0 tt0,
-  0 <= cur0 ->
+  0 <= cur0 -> short ops ->
   Forall2 out_eq (snd (run (init_wheel cur0 tt0) ops)) (snd (srun (sinit true tt0) ops)).
 Proof. exact wheel_refines. Qed.
 Print Assumptions c05_wheel_refines_spec.
 
 Theorem c05_heap_refines_spec : forall ops now,
+  short ops ->
   Forall2 out_eq (snd (run (init_heap now) ops)) (snd (srun (sinit false now) ops)).
 Proof. exact heap_refines. Qed.
 Print Assumptions c05_heap_refines_spec.
@@ -95,12 +100,12 @@ Print Assumptions c05_wheel_not_early.
 (* Order: what any tick step (a burst of any size) puts on Chan() is in non-decreasing
    due-time order, in every history, for both implementations. *)
 Theorem c05_wheel_order : forall ops cur0 tt0 l,
-  0 <= cur0 -> In (ODeliv l) (snd (run (init_wheel cur0 tt0) ops)) -> StronglySorted Z.le (map snd l).
+  0 <= cur0 -> short ops -> In (ODeliv l) (snd (run (init_wheel cur0 tt0) ops)) -> StronglySorted Z.le (map snd l).
 Proof. exact wheel_order. Qed.
 Print Assumptions c05_wheel_order.
 
 Theorem c05_heap_order : forall ops now l,
-  In (ODeliv l) (snd (run (init_heap now) ops)) -> StronglySorted Z.le (map snd l).
+  short ops -> In (ODeliv l) (snd (run (init_heap now) ops)) -> StronglySorted Z.le (map snd l).
 Proof. exact heap_order. Qed.
 Print Assumptions c05_heap_order.
 
@@ -160,6 +165,7 @@ Print Assumptions c05_heap_tick_not_due.
    (no child is Less than its parent), node.index is the position of every node in the
    array and -1 for every node outside it, ids in the array are distinct. *)
 Theorem c05_heap_array_inv : forall ops now,
+  short ops ->
   let s := fst (arun (ainit now) ops) in
   hp (aarr s) (length (aarr s)) /\ idx_ok (aarr s) /\
   Forall (fun x => hidx x = -1) (aoutside s) /\ NoDup (map (fun x => nid (hn x)) (aarr s)).
@@ -201,11 +207,13 @@ Print Assumptions c05_heap_push.
    heap scheduler of Model.v (the probe apart, which shows the array), hence as the
    pending-multiset specification: every heap theorem of C05 and C06 transfers. *)
 Theorem c05_heap_array_refines : forall ops now,
+  short ops ->
   Forall2 out_eqp (snd (arun (ainit now) ops)) (snd (run (init_heap now) ops)).
 Proof. exact heap_array_refines. Qed.
 Print Assumptions c05_heap_array_refines.
 
 Theorem c05_heap_array_refines_spec : forall ops now,
+  short ops ->
   Forall2 out_eq (snd (arun (ainit now) ops)) (snd (srun (sinit false now) ops)).
 Proof. exact heap_array_refines_spec. Qed.
 Print Assumptions c05_heap_array_refines_spec.
